@@ -15,10 +15,10 @@ import (
 	. "verifharness/hx"
 )
 
-const traceSet = "openat,write,pwrite64,fsync,fdatasync,rename,renameat,renameat2,unlink,unlinkat,ftruncate,close,copy_file_range,sendfile,mkdir,mkdirat,rmdir"
+const traceSet = "open,openat,write,pwrite64,fsync,fdatasync,rename,renameat,renameat2,unlink,unlinkat,ftruncate,close,copy_file_range,sendfile,mkdir,mkdirat,rmdir"
 
 // system calls on whose entry a kill is injected (C03): the mutating ones
-const injectSet = "openat,write,pwrite64,fsync,fdatasync,rename,renameat,renameat2,unlink,unlinkat,ftruncate,copy_file_range,sendfile,mkdir,mkdirat,rmdir"
+const injectSet = "open,openat,write,pwrite64,fsync,fdatasync,rename,renameat,renameat2,unlink,unlinkat,ftruncate,copy_file_range,sendfile,mkdir,mkdirat,rmdir"
 
 var injectNames = func() map[string]bool {
 	m := map[string]bool{}
@@ -338,8 +338,8 @@ func (r *reducer) classify(abs string) (string, *mpath) {
 		strings.HasSuffix(base, "-wal") || strings.HasSuffix(base, "-shm") || strings.HasSuffix(base, "-journal") {
 		return "out", nil
 	}
-	if strings.HasPrefix(rel, "verify/") {
-		return "out", nil
+	if strings.HasPrefix(rel, "verify/") || strings.HasPrefix(rel, "replica3") {
+		return "out", nil // harness-owned: verification restores, the synthesised v0.3.x replicas
 	}
 	if m := ltxRe.FindStringSubmatch(rel); m != nil {
 		tree := 0
@@ -431,6 +431,9 @@ func (r *reducer) dirEvent(tag int, abs string, line int, text string) {
 		}
 		rel = abs[len(r.root)+1:]
 	}
+	if kind, _ := r.classify(abs); kind != "in" {
+		return
+	}
 	r.isDir[rel] = true
 	r.emit(mcall{tag: tag, a: int64(r.dirID(rel)), src: line, text: text})
 }
@@ -449,7 +452,11 @@ func (r *reducer) feed(rc rawCall, acks *[]ackLine) {
 		return t
 	}
 	switch rc.name {
-	case "openat":
+	case "openat", "open":
+		if rc.name == "open" {
+			// open(path, flags[, mode]) (modernc SQLite): same as openat(AT_FDCWD, ...)
+			rc.args = append([]string{"AT_FDCWD"}, rc.args...)
+		}
 		if len(rc.args) < 3 {
 			return
 		}
